@@ -261,4 +261,14 @@ Mult(F, nb, s) ==
           IF F[i].kind = "b" /\ i \in RangeS(nb.design) /\ ~InSomeCrossing(nb, i) /\ s[t][i] > 0
           THEN F[i].w[s[t][i]] ELSE 1])])
 
+\* R11 as the documentation words it for MultiCrossBlock: the copies of a weighted level are distinct as soon as the factor
+\* "is not in all crossings".  The code desugars only factors that are in NO crossing (READING-3); MultDoc is judged for
+\* blocks without Nest (the documentation is silent about weights under Nest), see known finding KF14.
+InEveryCrossing(nb, i) == \A x \in 1..Len(nb.X) : i \in RangeS(nb.X[x].fs)
+MultDoc(F, nb, s) ==
+    ProdSeq([t \in 1..Len(s) |->
+       ProdSeq([i \in 1..Len(F) |->
+          IF F[i].kind = "b" /\ i \in RangeS(nb.design) /\ ~InEveryCrossing(nb, i) /\ s[t][i] > 0
+          THEN F[i].w[s[t][i]] ELSE 1])])
+
 =============================================================================
